@@ -321,3 +321,20 @@ PROPS['C09']['explanation'] = ('E1: FitInfo.filter_table (any row order of the p
                                'n_data and n_fits of the record in its header. write_parameter_ranges: for chi^2, A_V, scale and every parameter column the triple (minimum over the selected fits, value of the '
                                'rank-1 fit, maximum); placeholders only when nothing is selected. All three hand filter_table the package table with names stripped and rows sorted by name (whole rows moved '
                                'together). E2: the text of the three writers parsed back, exhaustive row permutations, sources as file/object/list.')
+
+
+# ---- plot() under contract (what goes into the line collection) -------------------------------------------
+PLOTF = 'sedfitter.plot.plot'
+PROPS['C17']['level'] = 'other'
+PROPS['C17']['e1'] = [PLOTF] + PROPS['C17']['e1'] + [CUBEN + 'SEDCube.get_sed', CUBEN + 'BaseCube.read']
+PROPS['C17']['assumptions'] = COMMON + [T_EVENT, D_FITS, 'matplotlib is outside E1: figures, axes and line collections are uninterpreted values; what the drawn picture looks like is decided by the bounded run',
+                                        'E1 covers plot() for cube packages with all fits of a source in one figure, sed_type="largest", figures returned (output_dir=None); the other display modes '
+                                        '(interp: interpolate_variable; smallest+largest; all; one figure per fit; per-file packages; files written) are decided by the bounded run',
+                                        'assumed: parfile.read (package configuration); FitInfoFile / keep through their own contracts; the domain conditions of the SED helpers on the package data',
+                                        'KPC = 3.086e21 in plot.py vs astropy kpc differ by 2e-4: the curve passes through the stored predicted flux only to that precision (bounded-run tolerance 1e-3)']
+PROPS['C17']['explanation'] = ('E1: plot(): for an arbitrary record and an arbitrary selected fit i the curve put into the line collection is (wavelengths, flux) of: the cube SED of the model NAMED in fit i '
+                               '(get_sed), scaled to the fitted distance 10^sc[i] * KPC cm (scale_to_distance), reddened with A_V[i] through the extinction law stored with the fit (scale_to_av), '
+                               'interpolated at the aperture theta_max * 10^sc[i] * 1000 AU (SED.interpolate) -- in that order, each step applied to the result of the previous one; fits are drawn from the last '
+                               'selected one down to the best, the best in black and last; the figure of the source gets exactly the collected curves, once the best fit is in. The helpers (scale_to_distance: '
+                               'inverse square; scale_to_av: 10^(A_V k); SED.interpolate; get_av; get_sed) are proved separately. E2: the drawn curves of the real plot() against the stored predicted fluxes, '
+                               'all display modes.')
